@@ -167,6 +167,8 @@ func (pConn *PFCPConn) handleAssociationSetupRequest(msg message.Message) (messa
 		return asres, errProcess(errDatapathDown)
 	}
 
+	pConn.remoteMu.Lock()
+
 	if pConn.ts.remote.IsZero() {
 		pConn.ts.remote = ts
 		logger.PfcpLog.Infoln("association Setup Request from", addr,
@@ -179,10 +181,13 @@ func (pConn *PFCPConn) handleAssociationSetupRequest(msg message.Message) (messa
 	}
 
 	pConn.nodeID.remote = nodeID
+
+	pConn.remoteMu.Unlock()
+
 	asres.Cause = ie.NewCause(ie.CauseRequestAccepted)
 
 	logger.PfcpLog.Infoln("association setup done between nodes",
-		"local:", pConn.nodeID.local, "remote:", pConn.nodeID.remote)
+		"local:", pConn.nodeID.local, "remote:", nodeID)
 
 	return asres, nil
 }
@@ -228,6 +233,8 @@ func (pConn *PFCPConn) handleAssociationSetupResponse(msg message.Message) error
 		return errUnmarshal(err)
 	}
 
+	pConn.remoteMu.Lock()
+
 	if pConn.ts.remote.IsZero() {
 		pConn.ts.remote = ts
 		logger.PfcpLog.Infoln("association Setup Response from", addr,
@@ -240,8 +247,10 @@ func (pConn *PFCPConn) handleAssociationSetupResponse(msg message.Message) error
 	}
 
 	pConn.nodeID.remote = nodeID
+
+	pConn.remoteMu.Unlock()
 	logger.PfcpLog.Infoln("association setup done between nodes",
-		"local:", pConn.nodeID.local, "remote:", pConn.nodeID.remote)
+		"local:", pConn.nodeID.local, "remote:", nodeID)
 
 	return nil
 }
